@@ -69,6 +69,11 @@ LITERAL_BODIES += ['"' * 5 + "\\u", '"' * 6 + "\\u12", '"' * 7 + "\\ud800", '"' 
                    '"' * 10 + "\\udc00", 'a"b"c"d"e"f"' + "\\q", "'" * 8 + "\\ud83d\\ud83d"]
 
 
+# raw quotes of the other kind or escaped own quotes, then a \\u escape or pair ending near the end of the literal
+LITERAL_BODIES += ['"' + "\\u0041", '""' + "\\u0041", "a" + '"' + "\\ud83d\\ude00", '"""' + "\\u004", "\\'" + "\\u0041", "\\'" + "\\u041",
+                   "\\'" * 6 + "\\ud83d", "\\'\\'" + "\\ud83d\\ude00", '\\"' + "\\u0041", '\\"' * 3 + "\\u00e9x", "'" + "\\u0041", "''" + "\\uD83D\\uDE00"]
+
+
 def literal_queries():
     """Queries exercising string literals at the very end of the text and in every position."""
     out = []
